@@ -805,6 +805,34 @@ func Observe(a core.Ammo) (Got, error) {
 	return g, nil
 }
 
+// ShootLikeGun does to a delivered request what pandora's built-in http gun (BaseGun.Shoot) does before it sends it:
+// the scheme and the host of req.URL are overwritten with the gun's target, and an empty Host gets the target's host.
+// A real instance does this to every ammo before it releases it; ammo that is delivered again (preload, JSON array,
+// pooled ammo objects) must not remember any of it. Call it AFTER Observe.
+func ShootLikeGun(a core.Ammo, ssl bool, target string) {
+	ha, ok := a.(phttp.Ammo)
+	if !ok {
+		return
+	}
+	req, _ := ha.Request()
+	if req == nil || req.URL == nil {
+		return
+	}
+	if ssl {
+		req.URL.Scheme = "https"
+	} else {
+		req.URL.Scheme = "http"
+	}
+	if req.Host == "" {
+		h := target
+		if i := strings.LastIndexByte(h, ':'); i > 0 {
+			h = h[:i]
+		}
+		req.Host = h
+	}
+	req.URL.Host = target
+}
+
 // Compare checks a delivered request against the model; extraOK lists canonical
 // header names that may appear without being in the model.
 func Compare(w Want, g Got, extraOK map[string]bool) error {
